@@ -211,6 +211,8 @@ func c20Machine(t *rapid.T, prop string) {
 		var pendingFetch chan c20FetchResult
 		chainVersion := []byte(nil) // version in the fetched chain data
 		var updates [][]byte
+		var updVar []int // manifest variant whose hash each update carried (variants may recur: a roll-back)
+		maxVar := 0
 		var subs []*c20Sub
 		var lastValidated *c20Sub // latest submission that passed validation (whatever the reply was)
 		interesting := false
@@ -334,7 +336,7 @@ func c20Machine(t *rapid.T, prop string) {
 		}
 		v0 := func() []byte { h, _ := sdl.ManifestVersion(c20Manifest(0, "", 2, false)); return h }()
 
-		steps := rapid.IntRange(2, 10).Draw(t, "steps")
+		steps := rapid.IntRange(2, 13).Draw(t, "steps")
 		for i := 0; i < steps && !stopped; i++ {
 			if dataState == "none" {
 				takeFetch(0) // a fetch may have been started by an earlier step
@@ -348,6 +350,17 @@ func c20Machine(t *rapid.T, prop string) {
 			}
 			if i >= 1 && pendingFetch != nil && len(updates) == 0 && rapid.IntRange(0, 3).Draw(t, "updateWhileFetching") == 0 {
 				act = 8
+			}
+			// keep the "accepted manifest follows the recorded version" dialogue going: when nothing
+			// is outstanding, often submit the manifest of the currently recorded version, or record
+			// another version (possibly an earlier one again)
+			forceLatest := false
+			if len(leases) > 0 && dataState == "have" && pendingFetch == nil && outstanding() == 0 && rapid.IntRange(0, 2).Draw(t, "dialogue") == 0 {
+				if lastValidated == nil || string(lastValidated.hash) != string(expectedVersion()) {
+					act, forceLatest = 2, true
+				} else {
+					act = 8
+				}
 			}
 			switch act {
 			case 0, 1: // lease won
@@ -367,6 +380,12 @@ func c20Machine(t *rapid.T, prop string) {
 				checkAnnouncements("lease won")
 			case 2, 3, 4, 5: // submit
 				kind := rapid.SampledFrom([]string{"valid", "valid", "valid", "wrong-version", "count-mismatch", "count-mismatch", "no-services", "valid-updated", "valid-updated"}).Draw(t, "kind")
+				if forceLatest {
+					kind = "valid"
+					if len(updVar) > 0 && updVar[len(updVar)-1] != 0 {
+						kind = "valid-updated"
+					}
+				}
 				var mf manifest.Manifest
 				valid := true
 				switch kind {
@@ -375,11 +394,12 @@ func c20Machine(t *rapid.T, prop string) {
 				case "valid-updated":
 					// the manifest of one of the updates seen so far, mostly the latest one
 					// (update #n on chain carries the hash of variant n)
-					v := len(updates)
-					if v == 0 {
-						v = 1
-					} else if v > 1 && rapid.IntRange(0, 2).Draw(t, "olderUpdate") == 0 {
-						v = rapid.IntRange(1, v-1).Draw(t, "whichUpdate")
+					v := 1
+					if len(updVar) > 0 {
+						v = updVar[len(updVar)-1]
+						if !forceLatest && len(updVar) > 1 && rapid.IntRange(0, 2).Draw(t, "olderUpdate") == 0 {
+							v = updVar[rapid.IntRange(0, len(updVar)-2).Draw(t, "whichUpdate")]
+						}
 					}
 					mf = c20Manifest(v, "", 2, false)
 				case "wrong-version":
@@ -450,15 +470,24 @@ func c20Machine(t *rapid.T, prop string) {
 				collectReplies("fetch completion", false)
 				checkAnnouncements("fetch completion")
 			case 8, 12, 13: // version updated on chain
-				// every update carries a new version: update #n records the hash of variant n
-				mm := c20Manifest(len(updates)+1, "", 2, false)
+				// an update records the hash of a new manifest variant, or rolls the deployment back
+				// to a variant recorded before (variant 0 is the one the deployment was created with)
+				uv := maxVar + 1
+				if maxVar > 0 && rapid.IntRange(0, 2).Draw(t, "rollBack") == 0 {
+					uv = rapid.IntRange(0, maxVar).Draw(t, "rollBackTo")
+				}
+				if uv > maxVar {
+					maxVar = uv
+				}
+				mm := c20Manifest(uv, "", 2, false)
 				if svc.config.HTTPServicesRequireAtLeastOneHost {
 					mm[0].Services[0].Expose[0].Hosts = []string{"free.example.com"}
 				}
 				nv, _ := sdl.ManifestVersion(mm)
-				note("version-updated(#%d)", len(updates)+1)
+				note("version-updated(variant %d)", uv)
 				m.handleUpdate(nv)
 				updates = append(updates, nv)
+				updVar = append(updVar, uv)
 				barrier("version update")
 				collectReplies("version update", false)
 			case 9: // lease removed
@@ -479,7 +508,11 @@ func c20Machine(t *rapid.T, prop string) {
 				if len(leases) == 0 || dataState != "have" || pendingFetch != nil || outstanding() > 0 {
 					continue
 				}
-				mf := c20Manifest(len(updates), "", 2, false)
+				cur := 0
+				if len(updVar) > 0 {
+					cur = updVar[len(updVar)-1]
+				}
+				mf := c20Manifest(cur, "", 2, false)
 				if svc.config.HTTPServicesRequireAtLeastOneHost {
 					mf[0].Services[0].Expose[0].Hosts = []string{"free.example.com"}
 				}
@@ -510,7 +543,7 @@ func c20Machine(t *rapid.T, prop string) {
 				}
 				var nvs [][]byte
 				for k := 1; k <= 2; k++ {
-					mm := c20Manifest(len(updates)+k, "", 2, false)
+					mm := c20Manifest(maxVar+k, "", 2, false)
 					if svc.config.HTTPServicesRequireAtLeastOneHost {
 						mm[0].Services[0].Expose[0].Hosts = []string{"free.example.com"}
 					}
@@ -523,7 +556,7 @@ func c20Machine(t *rapid.T, prop string) {
 					m.handleUpdate(nvs[1])
 					close(delivered)
 				}()
-				note("version-updated(#%d,#%d) while busy", len(updates)+1, len(updates)+2)
+				note("version-updated(variants %d,%d) while busy", maxVar+1, maxVar+2)
 				select {
 				case <-delivered: // accepted without the manager looking (a buffered hand-off)
 				case <-time.After(30 * time.Millisecond):
@@ -546,6 +579,8 @@ func c20Machine(t *rapid.T, prop string) {
 					fail("c20-no-reply", "submission #%d got no reply %v after the hostname check was released", bs.id, c20Wait)
 				}
 				updates = append(updates, nvs...)
+				updVar = append(updVar, maxVar+1, maxVar+2)
+				maxVar += 2
 				interesting = true
 				gateInteresting = true
 				barrier("updates while busy")
